@@ -341,7 +341,13 @@ fn switch_pair(rep: &mut Report, a: i32, bb: i32) {
 }
 
 fn template_orders(rep: &mut Report) {
-    let seqs: Vec<Vec<SumOp>> = vec![
+    let mut seqs: Vec<Vec<SumOp>> = Vec::new();
+    // strings that cross the 4 KiB / 8 KiB / 16 KiB / 64 KiB boundaries of the summary stream
+    for len in [4000usize, 4090, 4100, 8100, 8150, 8186, 8192, 8200, 8300, 16380, 16400, 66000] {
+        seqs.push(vec![SumOp::SetTitle("t".repeat(len / 2)), SumOp::SetComments("c".repeat(len)), SumOp::SetAuthor("after the long ones".into())]);
+        seqs.push(vec![SumOp::SetCodepage(932), SumOp::SetComments("漢".repeat(len / 2)), SumOp::SetAuthor("後".into())]);
+    }
+    seqs.extend(vec![
         vec![SumOp::SetArch("x64".into()), SumOp::SetLanguages(vec![1033, 1036])],
         vec![SumOp::SetLanguages(vec![1033, 1036]), SumOp::SetArch("x64".into())],
         vec![SumOp::SetArch("Intel".into()), SumOp::SetLanguages(vec![0]), SumOp::ClearArch],
@@ -357,7 +363,7 @@ fn template_orders(rep: &mut Report) {
         vec![SumOp::SetTitle("\u{feff}Title".into()), SumOp::SetComments("\u{feff}".into()), SumOp::SetAuthor("a\u{feff}b".into())],
         vec![SumOp::SetCodepage(1252), SumOp::SetTitle("ÿþAb".into()), SumOp::SetSubject("þÿAb".into()), SumOp::SetComments("ï»¿café".into()), SumOp::SetAuthor("ÿþ".into())],
         vec![SumOp::SetCodepage(28591), SumOp::SetTitle("þÿ title".into()), SumOp::SetCodepage(1251), SumOp::SetSubject("яю".into())],
-    ];
+    ]);
     for (i, seq) in seqs.iter().enumerate() {
         let mut b = Bench::new();
         let mut res = Ok(());
